@@ -27,6 +27,8 @@ pub mod c15;
 #[cfg(feature = "full")]
 pub mod c16;
 #[cfg(feature = "full")]
+pub mod c18;
+#[cfg(feature = "full")]
 pub mod c24;
 #[cfg(feature = "full")]
 pub mod c25;
@@ -76,6 +78,7 @@ pub fn all() -> Vec<Property> {
         v.push(Property { id: "C14", level: "exploration", build: c14::build });
         v.push(Property { id: "C15", level: "exploration", build: c15::build });
         v.push(Property { id: "C16", level: "exploration", build: c16::build });
+        v.push(Property { id: "C18", level: "exploration", build: c18::build });
         v.push(Property { id: "C24", level: "exploration", build: c24::build });
         v.push(Property { id: "C25", level: "exploration", build: c25::build });
         v.push(Property { id: "C26", level: "exploration", build: c26::build });
